@@ -22,7 +22,7 @@ use crate::metric::{Metric, ALL_METRICS};
 use crate::oracle;
 use crate::rawdb::{self, RawDb};
 use crate::util::mix;
-use crate::{with_metric, Args};
+use crate::Args;
 
 pub const SENTINEL: u32 = 4_000_000_000;
 const MAP_SIZE: usize = 256 << 20;
@@ -60,6 +60,23 @@ pub fn decode_sentinel(vec: &[f32]) -> u64 {
     v
 }
 
+/// In a "metric change" scenario (`--change 1`) version CHANGE_AT is `prepare_changing_distance::<pair>` plus
+/// the sentinel, committed WITHOUT a build; every later version works under the new metric.
+pub const CHANGE_AT: u64 = 4;
+
+pub fn metric_at(st: &Setup, change: bool, v: u64) -> Metric {
+    if change && v >= CHANGE_AT {
+        st.metric.pair()
+    } else {
+        st.metric
+    }
+}
+
+/// versions whose transaction is committed without a build
+pub fn no_build(v: u64, change: bool) -> bool {
+    is_staging(v) || (change && v == CHANGE_AT)
+}
+
 pub enum VOp {
     Add(u32, Vec<f32>),
     Append(u32, Vec<f32>),
@@ -73,9 +90,17 @@ pub fn is_staging(v: u64) -> bool {
 }
 
 /// The item operations of version `v` (v = 0 is the initial population). Pure function of the seed.
-pub fn version_ops(seed: u64, v: u64, dims: usize) -> Vec<VOp> {
+pub fn version_ops(seed: u64, v: u64, dims: usize, change: bool) -> Vec<VOp> {
     let mut rng = StdRng::seed_from_u64(mix(seed ^ mix(v + 1)));
     let mut ops = Vec::new();
+    if change && v == CHANGE_AT {
+        // after prepare_changing_distance: a few writes under the new metric and the sentinel
+        for _ in 0..rng.gen_range(0..4) {
+            ops.push(VOp::Add(rng.gen_range(0..200u32), (0..dims).map(|_| rng.gen_range(-1.0f32..1.0)).collect()));
+        }
+        ops.push(VOp::Add(SENTINEL, sentinel_vec(dims, v)));
+        return ops;
+    }
     if is_staging(v) {
         // the sentinel first (it is the largest id so far), then appends above it
         ops.push(VOp::Add(SENTINEL, sentinel_vec(dims, v)));
@@ -97,12 +122,14 @@ pub fn version_ops(seed: u64, v: u64, dims: usize) -> Vec<VOp> {
     ops
 }
 
-pub fn model_at(seed: u64, v: u64, dims: usize) -> BTreeMap<u32, Vec<f32>> {
+pub fn model_at(seed: u64, v: u64, dims: usize, change: bool, first_metric: Metric) -> BTreeMap<u32, Vec<f32>> {
     let mut m = BTreeMap::new();
     for k in 0..=v {
-        for op in version_ops(seed, k, dims) {
+        for op in version_ops(seed, k, dims, change) {
             match op {
                 VOp::Add(id, vec) | VOp::Append(id, vec) => {
+                    // what was written before a metric change is re-encoded from what the old metric had stored
+                    let vec = if change && v >= CHANGE_AT && k < CHANGE_AT { oracle::expected_readback(first_metric, &vec) } else { vec };
                     m.insert(id, vec);
                 }
                 VOp::Del(id) => {
@@ -130,13 +157,78 @@ fn die() -> ! {
     }
 }
 
-fn child_run<D: Distance>(args: &Args, st: &Setup) {
+/// what the child needs to know about where to die
+struct Kill {
+    mode: String,
+    ver: u64,
+    at: u64,
+}
+
+/// One version with a writer of the metric that version works under.
+#[allow(clippy::too_many_arguments)]
+fn child_version<DW: Distance>(mut wtxn: heed::RwTxn, writer: Writer<DW>, seed: u64, v: u64, st: &Setup, change: bool, kill: &Kill, pool: &rayon::ThreadPool) {
+    let armed = v == kill.ver && v > 0;
+    for (k, op) in version_ops(seed, v, st.dims, change).into_iter().enumerate() {
+        if armed && kill.mode == "op" && k as u64 == kill.at {
+            die();
+        }
+        match op {
+            VOp::Add(id, vec) => writer.add_item(&mut wtxn, id, &vec).unwrap(),
+            VOp::Append(id, vec) => writer.append_item(&mut wtxn, id, &vec).expect("append above every stored id"),
+            VOp::Del(id) => {
+                writer.del_item(&mut wtxn, id).unwrap();
+            }
+        }
+    }
+    let polls = AtomicU64::new(0);
+    let steps = AtomicU64::new(0);
+    let mut rng = StdRng::seed_from_u64(seed ^ v);
+    let n_ops = version_ops(seed, v, st.dims, change).len();
+    if no_build(v, change) {
+        say(&format!("COUNT {v} polls=0 steps=0 ops={n_ops}"));
+        say(&format!("COMMITTING {v}"));
+        wtxn.commit().expect("commit");
+        say(&format!("ACK {v}"));
+        if armed && kill.mode == "after" {
+            die();
+        }
+        return;
+    }
+    pool.install(|| {
+        let mut b = writer.builder(&mut rng);
+        b.n_trees(st.n_trees).split_after(st.split_after);
+        b.cancel(|| {
+            let k = polls.fetch_add(1, Ordering::Relaxed);
+            if armed && kill.mode == "poll" && k == kill.at {
+                die();
+            }
+            false
+        });
+        b.progress(|_| {
+            let k = steps.fetch_add(1, Ordering::Relaxed);
+            if armed && kill.mode == "step" && k == kill.at {
+                die();
+            }
+        });
+        b.build(&mut wtxn).expect("build");
+    });
+    say(&format!("COUNT {v} polls={} steps={} ops={n_ops}", polls.load(Ordering::Relaxed), steps.load(Ordering::Relaxed)));
+    say(&format!("COMMITTING {v}"));
+    wtxn.commit().expect("commit");
+    say(&format!("ACK {v}"));
+    if armed && kill.mode == "after" {
+        die();
+    }
+}
+
+fn child_run<D: Distance, D2: Distance>(args: &Args, st: &Setup) {
     let dir = args.get("dir").expect("--dir");
     let seed = args.get_u64("seed", 0);
     let versions = args.get_u64("versions", 4);
+    let change = args.get_u64("change", 0) == 1;
     let kill = args.get("kill").unwrap_or("none").to_string();
     let parts: Vec<&str> = kill.split(':').collect();
-    let (kmode, kver, kat) = if parts.len() == 3 { (parts[0].to_string(), parts[1].parse::<u64>().unwrap(), parts[2].parse::<u64>().unwrap()) } else { ("none".to_string(), 0, 0) };
+    let kill = if parts.len() == 3 { Kill { mode: parts[0].to_string(), ver: parts[1].parse::<u64>().unwrap(), at: parts[2].parse::<u64>().unwrap() } } else { Kill { mode: "none".to_string(), ver: 0, at: 0 } };
     let env = unsafe { EnvOpenOptions::new().map_size(MAP_SIZE).open(dir) }.expect("open env");
     let mut wtxn = env.write_txn().unwrap();
     let db: RawDb = env.create_database(&mut wtxn, None).unwrap();
@@ -144,61 +236,29 @@ fn child_run<D: Distance>(args: &Args, st: &Setup) {
     let pool = rayon::ThreadPoolBuilder::new().num_threads(1).build().unwrap();
     for v in 0..=versions {
         let mut wtxn = env.write_txn().unwrap();
-        let mut writer = Writer::<D>::new(adb::<D>(db), st.index, st.dims);
-        if let Some(t) = args.get("tmpdir") {
-            writer.set_tmpdir(t);
-        }
-        let armed = v == kver && v > 0;
-        for (k, op) in version_ops(seed, v, st.dims).into_iter().enumerate() {
-            if armed && kmode == "op" && k as u64 == kat {
-                die();
-            }
-            match op {
-                VOp::Add(id, vec) => writer.add_item(&mut wtxn, id, &vec).unwrap(),
-                VOp::Append(id, vec) => writer.append_item(&mut wtxn, id, &vec).expect("append above every stored id"),
-                VOp::Del(id) => {
-                    writer.del_item(&mut wtxn, id).unwrap();
+        if change && v >= CHANGE_AT {
+            let mut writer = if v == CHANGE_AT {
+                let mut old = Writer::<D>::new(adb::<D>(db), st.index, st.dims);
+                if let Some(t) = args.get("tmpdir") {
+                    old.set_tmpdir(t);
                 }
-            }
-        }
-        let polls = AtomicU64::new(0);
-        let steps = AtomicU64::new(0);
-        let mut rng = StdRng::seed_from_u64(seed ^ v);
-        let n_ops = version_ops(seed, v, st.dims).len();
-        if is_staging(v) {
-            say(&format!("COUNT {v} polls=0 steps=0 ops={n_ops}"));
-            say(&format!("COMMITTING {v}"));
-            wtxn.commit().expect("commit");
-            say(&format!("ACK {v}"));
-            if armed && kmode == "after" {
-                die();
-            }
-            continue;
-        }
-        pool.install(|| {
-            let mut b = writer.builder(&mut rng);
-            b.n_trees(st.n_trees).split_after(st.split_after);
-            b.cancel(|| {
-                let k = polls.fetch_add(1, Ordering::Relaxed);
-                if armed && kmode == "poll" && k == kat {
+                if v == kill.ver && kill.mode == "prepare" {
                     die();
                 }
-                false
-            });
-            b.progress(|_| {
-                let k = steps.fetch_add(1, Ordering::Relaxed);
-                if armed && kmode == "step" && k == kat {
-                    die();
-                }
-            });
-            b.build(&mut wtxn).expect("build");
-        });
-        say(&format!("COUNT {v} polls={} steps={} ops={n_ops}", polls.load(Ordering::Relaxed), steps.load(Ordering::Relaxed)));
-        say(&format!("COMMITTING {v}"));
-        wtxn.commit().expect("commit");
-        say(&format!("ACK {v}"));
-        if armed && kmode == "after" {
-            die();
+                old.prepare_changing_distance::<D2>(&mut wtxn).expect("prepare_changing_distance")
+            } else {
+                Writer::<D2>::new(adb::<D2>(db), st.index, st.dims)
+            };
+            if let Some(t) = args.get("tmpdir") {
+                writer.set_tmpdir(t);
+            }
+            child_version::<D2>(wtxn, writer, seed, v, st, change, &kill, &pool);
+        } else {
+            let mut writer = Writer::<D>::new(adb::<D>(db), st.index, st.dims);
+            if let Some(t) = args.get("tmpdir") {
+                writer.set_tmpdir(t);
+            }
+            child_version::<D>(wtxn, writer, seed, v, st, change, &kill, &pool);
         }
     }
     say("DONE");
@@ -206,15 +266,25 @@ fn child_run<D: Distance>(args: &Args, st: &Setup) {
 
 pub fn child(args: &Args) {
     let st = setup_of(args.get_u64("seed", 0));
-    with_metric!(st.metric, D, child_run::<D>(args, &st));
+    crate::with_metric_pair!(st.metric, D, D2, child_run::<D, D2>(args, &st));
 }
 
-fn verify_run<D: Distance>(args: &Args, st: &Setup) -> Result<String, String> {
+/// The version the sentinel shows when the index is read as one of metric `DW`.
+fn read_version<DW: Distance>(rtxn: &heed::RoTxn<heed::WithTls>, db: RawDb, st: &Setup) -> Option<u64> {
+    let wprobe = Writer::<DW>::new(adb::<DW>(db), st.index, st.dims);
+    let sv = engine::guarded(|| wprobe.item_vector(rtxn, SENTINEL)).ok()?.ok()??;
+    if sv.len() != st.dims {
+        return None;
+    }
+    Some(decode_sentinel(&sv))
+}
+
+fn verify_run<D: Distance, D2: Distance>(args: &Args, st: &Setup) -> Result<String, String> {
     let dir = args.get("dir").expect("--dir");
-    let seed = args.get_u64("seed", 0);
     let nothing_acked = args.get("acked") == Some("none");
     let acked = if nothing_acked { u64::MAX } else { args.get_u64("acked", 0) };
     let inflight = args.kv.get("inflight").and_then(|s| s.parse::<u64>().ok());
+    let change = args.get_u64("change", 0) == 1;
     let env = unsafe { EnvOpenOptions::new().map_size(MAP_SIZE).open(dir) }.map_err(|e| format!("the environment does not open after the crash: {e:?}"))?;
     let rtxn = env.read_txn().map_err(|e| format!("{e:?}"))?;
     let db: Option<RawDb> = env.open_database(&rtxn, None).map_err(|e| format!("{e:?}"))?;
@@ -232,38 +302,64 @@ fn verify_run<D: Distance>(args: &Args, st: &Setup) -> Result<String, String> {
         }
     }
     let db = db.ok_or("the unnamed database is missing after the crash")?;
-    // the sentinel is read through the writer-side API: a staging version must not open a reader
-    let wprobe = Writer::<D>::new(adb::<D>(db), st.index, st.dims);
-    let sv = wprobe.item_vector(&rtxn, SENTINEL).map_err(|e| format!("{e:?}"))?.ok_or("the version sentinel is missing")?;
-    let v = decode_sentinel(&sv);
-    if v != acked && Some(v) != inflight {
-        return Err(format!("after the crash the database shows version {v}; last acknowledged commit {acked}, commit in flight {inflight:?}"));
+    // which of the two admissible versions is it? each is read under the metric it was written with
+    let mut seen = Vec::new();
+    let mut found: Option<u64> = None;
+    for cand in [Some(acked).filter(|a| *a != u64::MAX), inflight].into_iter().flatten() {
+        let second = change && cand >= CHANGE_AT;
+        let got = if second { read_version::<D2>(&rtxn, db, st) } else { read_version::<D>(&rtxn, db, st) };
+        seen.push(format!("read as {}: {got:?}", metric_at(st, change, cand).short()));
+        if got == Some(cand) {
+            found = Some(cand);
+            break;
+        }
     }
-    let items = model_at(seed, v, st.dims);
-    let mut m = IndexModel::new(st.index, st.metric, st.dims);
+    let v = found.ok_or_else(|| format!("after the crash the version sentinel shows neither the last acknowledged commit {acked} nor the commit in flight {inflight:?} ({})", seen.join("; ")))?;
+    drop(rtxn);
+    if change && v >= CHANGE_AT {
+        verify_state::<D2>(&env, db, args, st, st.metric.pair(), change, v, acked, inflight)
+    } else {
+        verify_state::<D>(&env, db, args, st, st.metric, change, v, acked, inflight)
+    }
+}
+
+#[allow(clippy::too_many_arguments)]
+fn verify_state<D: Distance>(env: &heed::Env<heed::WithTls>, db: RawDb, args: &Args, st: &Setup, metric: Metric, change: bool, v: u64, acked: u64, inflight: Option<u64>) -> Result<String, String> {
+    let seed = args.get_u64("seed", 0);
+    let rtxn = env.read_txn().map_err(|e| format!("{e:?}"))?;
+    let items = model_at(seed, v, st.dims, change, st.metric);
+    let mut m = IndexModel::new(st.index, metric, st.dims);
     m.items = items;
-    m.has_metadata = true;
-    m.dirty = is_staging(v);
+    // right after prepare_changing_distance there is no metadata at all
+    m.has_metadata = !(change && (v == CHANGE_AT || (v == CHANGE_AT + 1 && is_staging(v))));
+    m.dirty = no_build(v, change);
     let mut c = crate::util::Counters::default();
     let probe: Vec<u32> = m.items.keys().copied().collect();
     engine::check_store::<D>(&rtxn, db, &m, &probe, true, &mut c).map_err(|e| format!("version {v} after the crash: {e}"))?;
-    if is_staging(v) {
+    if no_build(v, change) {
         // committed but not built: the index must demand a build, in this fresh process too
         let mut srng = StdRng::seed_from_u64(1);
-        engine::check_staleness(&rtxn, db, &m, &mut srng, &mut c).map_err(|e| format!("staging version {v} after the crash: {e}"))?;
+        engine::check_staleness(&rtxn, db, &m, &mut srng, &mut c).map_err(|e| format!("unbuilt version {v} ({}) after the crash: {e}", if is_staging(v) { "staged appends" } else { "metric change prepared" }))?;
+        if change && v == CHANGE_AT {
+            // nothing of the old metric's forest may be left
+            let own = rawdb::dump_of_index(&rawdb::dump(&rtxn, db)?, st.index);
+            if let Some((k, _)) = own.iter().find(|(k, _)| k.len() >= 3 && (k[2] == 0 || k[2] == 2)) {
+                return Err(format!("version {v} (metric change prepared, not built) after the crash: the old metric's metadata or tree nodes are still stored, e.g. key {}", k.iter().map(|b| format!("{b:02x}")).collect::<String>()));
+            }
+        }
         drop(rtxn);
-        return finish_after_crash::<D>(&env, db, st, args, seed, v, acked, m, c);
+        return finish_after_crash::<D>(env, db, st, metric, args, seed, v, acked, m, c);
     }
     let reader = Reader::<D>::open(&rtxn, st.index, adb::<D>(db)).map_err(|e| format!("Reader::open after the crash: {e:?} (acked={acked}, in flight={inflight:?})"))?;
     let d = rawdb::dump(&rtxn, db)?;
-    let decl = |i: u16| if i == st.index { Some((st.metric, st.dims)) } else { None };
+    let decl = |i: u16| if i == st.index { Some((metric, st.dims)) } else { None };
     let dec = rawdb::decode(&d, &decl).map_err(|e| format!("version {v} after the crash does not decode: {e}"))?.remove(&st.index).unwrap_or_default();
-    forest::check_forest(&dec, st.dims, st.metric.disk_name()).map_err(|e| format!("version {v} after the crash: {e}"))?;
+    forest::check_forest(&dec, st.dims, metric.disk_name()).map_err(|e| format!("version {v} after the crash: {e}"))?;
     let mut qrng = StdRng::seed_from_u64(seed ^ 99);
     engine::check_exact::<D>(&rtxn, db, &m, &mut qrng, 3, true, &mut c).map_err(|e| format!("version {v} after the crash: {e}"))?;
     drop(reader);
     drop(rtxn);
-    finish_after_crash::<D>(&env, db, st, args, seed, v, acked, m, c)
+    finish_after_crash::<D>(env, db, st, metric, args, seed, v, acked, m, c)
 }
 
 /// life goes on: one more update + build + commit, then a second, different one
@@ -272,6 +368,7 @@ fn finish_after_crash<D: Distance>(
     env: &heed::Env<heed::WithTls>,
     db: RawDb,
     st: &Setup,
+    metric: Metric,
     args: &Args,
     seed: u64,
     v: u64,
@@ -279,7 +376,7 @@ fn finish_after_crash<D: Distance>(
     mut m: IndexModel,
     mut c: crate::util::Counters,
 ) -> Result<String, String> {
-    let decl = |i: u16| if i == st.index { Some((st.metric, st.dims)) } else { None };
+    let decl = |i: u16| if i == st.index { Some((metric, st.dims)) } else { None };
     let mut wtxn = env.write_txn().map_err(|e| format!("write txn after the crash: {e:?}"))?;
     let mut writer = Writer::<D>::new(adb::<D>(db), st.index, st.dims);
     if let Some(t) = args.get("tmpdir") {
@@ -298,7 +395,7 @@ fn finish_after_crash<D: Distance>(
     let rtxn = env.read_txn().unwrap();
     let d = rawdb::dump(&rtxn, db)?;
     let dec = rawdb::decode(&d, &decl)?.remove(&st.index).unwrap_or_default();
-    forest::check_forest(&dec, st.dims, st.metric.disk_name()).map_err(|e| format!("after the post-crash update: {e}"))?;
+    forest::check_forest(&dec, st.dims, metric.disk_name()).map_err(|e| format!("after the post-crash update: {e}"))?;
     engine::check_store::<D>(&rtxn, db, &m, &[12345, first], true, &mut c).map_err(|e| format!("after the post-crash update: {e}"))?;
     drop(rtxn);
     // and once more with other content (a leftover of the crashed build must not leak into a later, different build)
@@ -315,7 +412,7 @@ fn finish_after_crash<D: Distance>(
     let rtxn = env.read_txn().unwrap();
     let d = rawdb::dump(&rtxn, db)?;
     let dec = rawdb::decode(&d, &decl).map_err(|e| format!("after the second post-crash update: {e}"))?.remove(&st.index).unwrap_or_default();
-    forest::check_forest(&dec, st.dims, st.metric.disk_name()).map_err(|e| format!("after the second post-crash update: {e}"))?;
+    forest::check_forest(&dec, st.dims, metric.disk_name()).map_err(|e| format!("after the second post-crash update: {e}"))?;
     let mut qrng = StdRng::seed_from_u64(seed ^ 98);
     engine::check_exact::<D>(&rtxn, db, &m, &mut qrng, 2, true, &mut c).map_err(|e| format!("after the second post-crash update: {e}"))?;
     Ok(format!("v={v} items={} which={}", m.items.len(), if v == acked { "acked" } else { "inflight" }))
@@ -324,7 +421,7 @@ fn finish_after_crash<D: Distance>(
 pub fn verify(args: &Args) {
     engine::install_quiet_panic_hook();
     let st = setup_of(args.get_u64("seed", 0));
-    let r = engine::guarded(|| with_metric!(st.metric, D, verify_run::<D>(args, &st))).unwrap_or_else(|p| Err(format!("panic while verifying: {p}")));
+    let r = engine::guarded(|| crate::with_metric_pair!(st.metric, D, D2, verify_run::<D, D2>(args, &st))).unwrap_or_else(|p| Err(format!("panic while verifying: {p}")));
     match r {
         Ok(s) => say(&format!("VERIFY ok {s} metric={} dims={}", st.metric.short(), st.dims)),
         Err(e) => say(&format!("VERIFY violation {e}")),
